@@ -18,7 +18,7 @@
 (*         device calls) is unchanged by the question                      *)
 (* The verdict of a case lists the failing probes with the failing clause.       *)
 (***************************************************************************)
-EXTENDS Integers, Sequences, TLC, Json, IOUtils
+EXTENDS Integers, Sequences, FiniteSets, TLC, Json, IOUtils
 
 Cases == JsonDeserialize(IOEnv.CASES)
 
@@ -38,13 +38,14 @@ ProbeVerdict(p) ==
     ELSE IF p.what \in {"unknown", "subscript"} THEN (IF p.dk = "evalerr" THEN "ok" ELSE "error-not-reported")
     ELSE "ok"                                   \* after the end anything but a crash is acceptable
 
-\* all failing probes (at most 12 are reported)
-RECURSIVE Walk(_, _, _)
-Walk(ps, k, acc) == IF k > Len(ps) \/ Len(acc) >= 12 THEN acc
-                    ELSE LET v == ProbeVerdict(ps[k]) IN Walk(ps, k + 1, IF v # "ok" THEN Append(acc, [v |-> v, k |-> k]) ELSE acc)
+\* all failing probes (the 12 first are reported); no recursion: a session may ask thousands of questions
+Failing(ps) == {k \in 1..Len(ps) : ProbeVerdict(ps[k]) # "ok"}
+Walk(ps) == LET F == Failing(ps)
+                first == {k \in F : Cardinality({j \in F : j < k}) < 12}
+            IN {[v |-> ProbeVerdict(ps[k]), k |-> k] : k \in first}
 
 VARIABLE i
 Init == i = 1
-Next == i <= Len(Cases) /\ PrintT(ToJson([id |-> Cases[i].id, r |-> Walk(Cases[i].probes, 1, <<>>), n |-> Len(Cases[i].probes)])) /\ i' = i + 1
+Next == i <= Len(Cases) /\ PrintT(ToJson([id |-> Cases[i].id, r |-> Walk(Cases[i].probes), n |-> Len(Cases[i].probes)])) /\ i' = i + 1
 Spec == Init /\ [][Next]_i
 =============================================================================
